@@ -10,6 +10,10 @@ kinds: `vec`, `smallvec` (inline capacity 4), `cursor-owned` (`Vec<W>`), `cursor
 `rev-cursor`, `rev-cursor-box`, `rev-cursor-mut`, `rev-cursor-slice` (the same wrapped in
 `Reverse`), `iter`, `callback`.
 
+iter also: `fallible-loose <script> <loSlack> <hiSlack|inf>` / `infallible-loose …` (an iterator
+whose `size_hint` is `(actual - loSlack, actual + hiSlack)`; not exact-size: `remaining_*`
+unsupported, `exhausted_*` prints `maybe_exhausted` only).
+
 init: `data <ws>` (vec, smallvec) · `at <ws> <pos>` / `begin <ws>` / `end <ws>` (cursors) ·
 `fallible <script>` / `infallible <script>` (iter; script items: hex word, `x` = `Err(())`,
 `_` = a `None` hole of a non-fused iterator) · `fallible <failAt>` / `infallible` (callback).
@@ -183,6 +187,15 @@ def doInit (kind : String) (W : Nat) (seg : List String) : Option (Backend × St
     match seg with
     | ["fallible", sc] => (parseScript W sc).map (fun l => (.iterF ⟨{ script := l }⟩, "ok"))
     | ["infallible", sc] => (parseScript W sc).map (fun l => (.iterI ⟨{ script := l }⟩, "ok"))
+    -- loose `size_hint`: lower = actual - loSlack, upper = actual + hiSlack (`inf`: none)
+    | ["fallible-loose", sc, lo, hi] =>
+      match parseUsize lo, (if hi == "inf" then some 0 else parseUsize hi) with
+      | some _, some _ => (parseScript W sc).map (fun l => (.iterFL ⟨{ script := l }⟩, "ok"))
+      | _, _ => none
+    | ["infallible-loose", sc, lo, hi] =>
+      match parseUsize lo, (if hi == "inf" then some 0 else parseUsize hi) with
+      | some _, some _ => (parseScript W sc).map (fun l => (.iterIL ⟨{ script := l }⟩, "ok"))
+      | _, _ => none
     | _ => none
   | "backend.callback" =>
     match seg with
